@@ -638,6 +638,8 @@ Congruences_Reduction<D1, D2>::product_reduce(D1& d1, D2& d2) {
     sr.product_reduce(d1, d2);
     return;
   }
+  const dimension_type old_affine_dim1 = d1.affine_dimension();
+  const dimension_type old_affine_dim2 = d2.affine_dimension();
   // Use the congruences representing d1 to shrink both components.
   const Congruence_System cgs1 = d1.minimized_congruences();
   for (Congruence_System::const_iterator i = cgs1.begin(),
@@ -675,6 +677,16 @@ Congruences_Reduction<D1, D2>::product_reduce(D1& d1, D2& d2) {
   if (d1.is_empty() || d2.is_empty()) {
     Parma_Polyhedra_Library::Smash_Reduction<D1, D2> sr;
     sr.product_reduce(d1, d2);
+    return;
+  }
+  // A component that has been refined with an equality may now satisfy
+  // further equalities (to be shared with the other component) and may
+  // now be shrunk by further congruences: repeat until no new equality
+  // is found.  Each new equality lowers the affine dimension of the
+  // component it is added to, so that this terminates.
+  if (d1.affine_dimension() < old_affine_dim1
+      || d2.affine_dimension() < old_affine_dim2) {
+    product_reduce(d1, d2);
   }
 }
 
